@@ -115,8 +115,8 @@ static Foam	gcvLFmtStk;		/* Prog lexical format stack */
 static Foam	gcvDefs;		/* Unit definitions */
 static FoamList gcvLexStk = 0;		/* Unit/Prog lexicals stack */
 static Bool	gcvIsLeaf;		/* True iff prog is a leaf proc */
-static int	gcvIdChars[CHAR_MAX];	/* Array of special print chars */
-static int	gcvIdCharc[CHAR_MAX];	/* Array of special print lengths */
+static int	gcvIdChars[UCHAR_MAX+1];/* Array of special print chars */
+static int	gcvIdCharc[UCHAR_MAX+1];/* Array of special print lengths */
 static int	gcvNLocs  = 0;		/* Number of locals */
 static int	gcvNStmts = 0;		/* Number of statements */
 static int	gcvNBInts = 0;		/* Counter for global big ints */
@@ -6498,8 +6498,8 @@ gc0ValidIdInBuf(Buffer buf, String s)
 {
 	int	pos0;
 	pos0 = bufPosition(buf);
-	for ( ; *s && gc0UnderIdLen(buf, (int)*s); s++) {
-		int k = gcvIdChars[(int)*s];
+	for ( ; *s && gc0UnderIdLen(buf, (UByte)*s); s++) {
+		int k = gcvIdChars[(UByte)*s];
 		if (k == NOT_CHANGED)
 			bufAdd1(buf, *s);
 		else if (k != NOT_PRINTABLE)
@@ -6544,7 +6544,7 @@ gc0InitSpecialChars(void)
 {
 	int	i;
  
-	for (i = 0; i < CHAR_MAX; i++) {
+	for (i = 0; i < UCHAR_MAX+1; i++) {
 		if (isalnum(i)) {
 			gcvIdChars[i] = NOT_CHANGED;
 			gcvIdCharc[i] = 1;
